@@ -413,6 +413,43 @@ def register(cat):
 
     bad("sumtensor_ctor_shapes", None, gen_sumtensor_ctor, lambda eng, ops, st: ttb.sumtensor(list(ops)), lambda ops, st: shp(ops[0]) != shp(ops[1]))
 
+    def gen_sum_add_list(c, r):
+        a = c.pick(ALL)
+        if a is None:
+            return None
+        b = other_shape(c, ALL, shp(c.obj(a)))
+        if b is None:
+            return None
+        return {"operands": [a, b], "receiver": c.g.choice(["empty", "empty", "one_part"]), "reflected": c.g.random() < 0.3}
+
+    def run_sum_add_list(eng, ops, st):
+        recv = ttb.sumtensor() if st["receiver"] == "empty" else ttb.sumtensor([ops[0]])
+        return ([ops[0], ops[1]] + recv) if st["reflected"] else (recv + [ops[0], ops[1]])
+
+    bad("sumtensor_add_list_of_mismatched_shapes", None, gen_sum_add_list, run_sum_add_list, lambda ops, st: shp(ops[0]) != shp(ops[1]))
+
+    def gen_symmetrize_overlap(c, r):
+        n = c.g.choice([3, 3, 4, 5])
+        arr = rand_array(c.g, (2,) * n)
+        grps = c.g.choice([[[0, 1], [1, 2]], [[0], [1], [0]], [[0, 1], [2], [1]], [[0, 2], [1], [2]]] + ([[[0, 1], [2, 3], [0, 4]]] if n >= 5 else []))
+        if max(max(g) for g in grps) >= n:
+            return None
+        return {"operands": [c.fresh(arr)], "grps": grps}
+
+    def run_symmetrize_overlap(eng, ops, st):
+        width = max(len(g) for g in st["grps"])
+        if any(len(g) != width for g in st["grps"]):
+            grps = np.array([g + [g[-1]] * (width - len(g)) for g in st["grps"]])
+        else:
+            grps = np.array(st["grps"])
+        return ttb.tensor(ops[0]).symmetrize(grps)
+
+    def bad_symmetrize(ops, st):
+        flat = [m for g in st["grps"] for m in set(g)]
+        return len(flat) != len(set(flat))
+
+    bad("T.symmetrize_overlapping_groups", None, gen_symmetrize_overlap, run_symmetrize_overlap, bad_symmetrize)
+
     def gen_tenmat_ctor(c, r):
         shape = list(c.g.choice(c.heap_families()))
         n = len(shape)
